@@ -6,7 +6,11 @@ package main
 // tiny chunk files, both header versions) is built and closed. Its directory is then copied many
 // times; in each copy bytes of the tx log (tx/*.tx) and of the value logs (val_*/*.val) are altered
 // (systematically at every field of every record, plus seeded random bit flips) and the copy is
-// opened and read through every integrity-checked API.
+// opened and read through every integrity-checked API. HOW a copy is opened and read varies from case to case
+// (c09Variant): value-log cache size {0,1,4,64} x tx-log cache size {default,1} x a read SEQUENCE that interposes lenient
+// accesses (skipIntegrityCheck=true: ExportTx, ReadTx, ReadTxHeader, ReadTxEntry) before / between the checked ones and
+// permutes the checked phases, so that whatever a lenient or another checked path left in a cache is then consumed by a
+// checked path. Lenient answers are not judged; the checked ones are, as always.
 //
 // ORACLE (model independent; ground truth = the same probe on the unaltered copy): every call either
 // returns an error or exactly the pristine content. A panic, a hang, a huge allocation or different
@@ -14,11 +18,13 @@ package main
 //
 // TIE to the Lean model (Tx/Record.lean): for every altered record the raw tx-log stream is sent to
 // `c09 parse` and the outcome class (ok + canonical record | error class | panic) is compared with the
-// real ReadTx; pristine records are compared byte for byte with `c09 ser`; value reads with `c09 rv`.
+// real ReadTx; pristine records are compared byte for byte with `c09 ser`; value reads with `c09 rv`, repeated
+// value reads of the sandwich sequences with `c09 rvc` (Tx/ValueCache.lean: the read through the cached bytes).
 
 import (
 	"bytes"
 	"context"
+	"crypto/sha256"
 	"encoding/binary"
 	"encoding/json"
 	"errors"
@@ -72,6 +78,77 @@ func (c c09Cfg) opts(ver int) *store.Options {
 		WithMaxValueLen(c09MaxValLen).WithMultiIndexing(true).WithLogger(quietLogger()).
 		WithWriteBufferSize(1 << 13).WithIndexOptions(idx).WithAHTOptions(aht).WithMaxActiveTransactions(8).WithMaxWaitees(8).
 		WithTimeFunc(func() time.Time { return time.Unix(1790000000, 0) }) // deterministic record bytes (replays)
+}
+
+// c09Variant: HOW an (altered) copy is opened and read. The caches are run-time options (nothing of them is
+// persisted), so every copy of the same pristine directory can be opened with its own cache configuration; Seq names
+// the read SEQUENCE: which lenient (skipIntegrityCheck=true) accesses are made, and when, relative to the
+// integrity-checked ones, and in which order the checked phases run. The zero value is the plain checked probe
+// (value cache off, default tx-log cache, no lenient access) = the ground-truth probe.
+type c09Variant struct {
+	VCache  int    `json:"vcache"`  // store.Options.VLogCacheSize (0 = off = immudb's default)
+	TxCache int    `json:"txcache"` // store.Options.TxLogCacheSize (0 = immudb's default)
+	Seq     string `json:"seq"`     // "+"-joined: {bulk|pertx|sandwich}-{export|readtx|all}, export-first, get-first
+}
+
+func (v c09Variant) String() string {
+	seq := v.Seq
+	if seq == "" {
+		seq = "checked-only"
+	}
+	return fmt.Sprintf("vcache=%d,txcache=%d,seq=%s", v.VCache, v.TxCache, seq)
+}
+
+// c09Seq: the decoded read sequence.
+type c09Seq struct {
+	when        string // "" | "bulk" (all lenient accesses before any checked one) | "pertx" (lenient accesses of tx i right before the checked reads of tx i) | "sandwich" (checked, lenient, checked again)
+	export      bool   // lenient ExportTx(skipIntegrityCheck=true): the only lenient path that reads VALUES
+	readtx      bool   // lenient ReadTx / ReadTxHeader / ReadTxEntry (+ checked ReadValue of the entries they return)
+	exportFirst bool   // the checked ExportTx loop runs before the checked ReadTx/ReadValue loop
+	getFirst    bool   // index + Get + Resolve run before the checked ReadTx/ReadValue loop
+}
+
+func (v c09Variant) seq() c09Seq {
+	var q c09Seq
+	for _, tok := range strings.Split(v.Seq, "+") {
+		switch tok {
+		case "", "checked-only":
+		case "export-first":
+			q.exportFirst = true
+		case "get-first":
+			q.getFirst = true
+		default:
+			p := strings.SplitN(tok, "-", 2)
+			if len(p) == 2 {
+				q.when = p[0]
+				q.export = p[1] == "export" || p[1] == "all"
+				q.readtx = p[1] == "readtx" || p[1] == "all"
+			}
+		}
+	}
+	return q
+}
+
+var c09Seqs = []string{"checked-only", "bulk-export", "pertx-all", "sandwich-export", "get-first+bulk-export", "bulk-readtx",
+	"pertx-export", "export-first", "sandwich-all", "bulk-all", "get-first"}
+var c09VCaches = []int{0, 64, 1, 4}
+var c09TxCaches = []int{0, 1}
+
+// c09VariantAt enumerates the cross product (the three periods 11, 4 and 8 are pairwise compatible: 88 consecutive
+// indices visit every combination of sequence x value-cache size x tx-cache size).
+func c09VariantAt(i int) c09Variant {
+	if i < 0 {
+		i = -i
+	}
+	return c09Variant{Seq: c09Seqs[i%len(c09Seqs)], VCache: c09VCaches[i%len(c09VCaches)], TxCache: c09TxCaches[(i/len(c09VCaches))%len(c09TxCaches)]}
+}
+
+func (c c09Cfg) optsV(ver int, v c09Variant) *store.Options {
+	o := c.opts(ver).WithVLogCacheSize(v.VCache)
+	if v.TxCache > 0 {
+		o = o.WithTxLogCacheSize(v.TxCache)
+	}
+	return o
 }
 
 // ---------------------------------------------------------------- logical view of a multiapp directory
@@ -441,6 +518,9 @@ type c09Res struct {
 	Panic string // innermost immudb function of the panic stack
 	Alloc uint64
 	VLen  int // ReadValue/ExportTx: the vLen the store believed
+	// ReadValue of an entry handed out by a LENIENT read: "ok" / "mismatch" = does the returned value have the digest
+	// and the length the ENTRY states (the entry itself is not authenticated, ReadValue's own check is what is judged)
+	Self string
 }
 
 type c09Obs struct {
@@ -562,14 +642,44 @@ type c09Plan struct {
 	skipHuge  bool // do not call value reads whose believed vLen is huge (after the finding has been recorded once)
 	// after the ExportTx deadlock has been confirmed once, do not call ExportTx again on an instance whose ExportTx failed
 	noExportAfterErr bool
+	pv               c09Variant
 }
 
-// c09Probe opens the directory and reads everything through the integrity-checked APIs.
+// Call keys: "<API>[!skip][#<pass>]:<args>". "!skip" marks a LENIENT call (skipIntegrityCheck=true): its answer is not
+// judged (the caller asked for no check), only panics / hangs / allocations are. "#<pass>" marks a repeated or
+// derived CHECKED call: it is judged against the ground truth of the plain call ("ReadValue#2:3:1" and "ReadValue#L:3:1"
+// against "ReadValue:3:1").
+func c09BaseKey(k string) string {
+	i := strings.Index(k, ":")
+	head, tail := k, ""
+	if i >= 0 {
+		head, tail = k[:i], k[i:]
+	}
+	if j := strings.Index(head, "#"); j >= 0 {
+		head = head[:j]
+	}
+	return head + tail
+}
+
+func c09Lenient(api string) bool { return strings.Contains(api, "!skip") }
+
+// c09SigAPI: the API name used in failure signatures (lenient / repeated calls share the signature of the plain API).
+func c09SigAPI(api string) string {
+	if j := strings.IndexAny(api, "!#"); j >= 0 {
+		return api[:j]
+	}
+	return api
+}
+
+// c09Probe opens the directory and reads everything through the integrity-checked APIs, in the order and with the
+// interposed lenient accesses given by plan.pv.
 func c09Probe(o *c09Obs, dir string, cfg c09Cfg, plan c09Plan) *c09Obs {
+	pv := plan.pv
+	q := pv.seq()
 	var st *store.ImmuStore
 	r := o.call("Open", "Open", func(*c09Res) (string, error) {
 		var err error
-		st, err = store.Open(dir, cfg.opts(1))
+		st, err = store.Open(dir, cfg.optsV(1, pv))
 		return "ok", err
 	})
 	if r.Err != "" || r.Panic != "" || st == nil {
@@ -591,11 +701,110 @@ func c09Probe(o *c09Obs, dir string, cfg c09Cfg, plan c09Plan) *c09Obs {
 		return fmt.Sprintf("%d:%s", id, hx.Hex(alh[:])), nil
 	})
 	tx := store.NewTx(st.MaxTxEntries(), st.MaxKeyLen())
+	ltx := store.NewTx(st.MaxTxEntries(), st.MaxKeyLen()) // holder of the lenient reads (the checked holder keeps its entries)
 	firstBad := uint64(0)
 	maxVLen := map[uint64]int{}
-	for id := uint64(1); id <= plan.n; id++ {
+	exportFailed := false
+
+	// ---- lenient accesses of one transaction
+	lenientExport := func(id uint64) {
+		if o.abort || (exportFailed && plan.noExportAfterErr) {
+			return
+		}
+		if !q.readtx {
+			// the entries the lenient export is about to read (for the tie: which offsets get cached with which length)
+			o.call("ReadTx!skip", fmt.Sprintf("ReadTx!skip:%d", id), func(res *c09Res) (string, error) {
+				if err := st.ReadTx(id, true, ltx); err != nil {
+					return "", err
+				}
+				if alh, p := safeAlh(ltx.Header()); !p {
+					res.Full = c09Summary(ltx, alh)
+				}
+				return "ok", nil
+			})
+		}
+		rr := o.call("ExportTx!skip", fmt.Sprintf("ExportTx!skip:%d", id), func(res *c09Res) (string, error) {
+			b, err := st.ExportTx(id, false, true, ltx)
+			if err != nil {
+				return "", err
+			}
+			return hx.Hex(b), nil
+		})
+		if rr.Err != "" {
+			exportFailed = true
+		}
+	}
+	readValueOf := func(api, key string, e *store.TxEntry) {
+		if plan.skipHuge && e.VLen() > c09GuardVLen {
+			o.put(key, &c09Res{API: api, Err: "skipped-huge-vlen", VLen: e.VLen()})
+			return
+		}
+		o.call(api, key, func(res *c09Res) (string, error) {
+			res.VLen = e.VLen()
+			v, err := st.ReadValue(e)
+			if err != nil {
+				return "", err
+			}
+			if api == "ReadValue#L" || api == "ReadValue#E" {
+				res.Self = "ok"
+				if sha256.Sum256(v) != e.HVal() || len(v) != e.VLen() {
+					res.Self = "mismatch"
+				}
+			}
+			return hx.Hex(v), nil
+		})
+	}
+	lenientRead := func(id uint64) {
 		var entries []*store.TxEntry
-		rr := o.call("ReadTx", fmt.Sprintf("ReadTx:%d", id), func(res *c09Res) (string, error) {
+		o.call("ReadTx!skip", fmt.Sprintf("ReadTx!skip:%d", id), func(res *c09Res) (string, error) {
+			if err := st.ReadTx(id, true, ltx); err != nil {
+				return "", err
+			}
+			alh, p := safeAlh(ltx.Header())
+			if !p {
+				res.Full = c09Summary(ltx, alh)
+			}
+			entries = ltx.Entries()
+			return "ok", nil
+		})
+		// ReadValue is integrity-checked whatever the origin of the entry (this is how pkg/database reads with
+		// skipIntegrityCheck: ReadTxEntry(…, true) then ReadValue): error, or the pristine value of that entry
+		for i, e := range entries {
+			readValueOf("ReadValue#L", fmt.Sprintf("ReadValue#L:%d:%d", id, i), e)
+		}
+		o.call("ReadTxHeader!skip", fmt.Sprintf("ReadTxHeader!skip:%d", id), func(*c09Res) (string, error) {
+			_, err := st.ReadTxHeader(id, false, true)
+			return "ok", err
+		})
+		for _, k := range plan.keys[:2] {
+			key := k
+			var ent *store.TxEntry
+			rr := o.call("ReadTxEntry!skip", fmt.Sprintf("ReadTxEntry!skip:%d:%s", id, hx.Hex(key)), func(*c09Res) (string, error) {
+				e, _, err := st.ReadTxEntry(id, key, true)
+				if errors.Is(err, store.ErrKeyNotFound) {
+					return "not-found", nil
+				}
+				ent = e
+				return "ok", err
+			})
+			if rr.Err == "" && rr.Panic == "" && ent != nil {
+				readValueOf("ReadValue#E", fmt.Sprintf("ReadValue#E:%d:%s", id, hx.Hex(key)), ent)
+			}
+		}
+	}
+	lenient := func(id uint64) {
+		if q.readtx {
+			lenientRead(id)
+		}
+		if q.export {
+			lenientExport(id)
+		}
+	}
+
+	// ---- the checked phases
+	checkedTx := func(id uint64, pass string) []*store.TxEntry {
+		var entries []*store.TxEntry
+		rr := o.call("ReadTx"+pass, fmt.Sprintf("ReadTx%s:%d", pass, id), func(res *c09Res) (string, error) {
 			if err := st.ReadTx(id, false, tx); err != nil {
 				return "", err
 			}
@@ -606,164 +815,211 @@ func c09Probe(o *c09Obs, dir string, cfg c09Cfg, plan c09Plan) *c09Obs {
 		if (rr.Err != "" || rr.Panic != "") && firstBad == 0 {
 			firstBad = id
 		}
-		// values of the entries as THIS store sees them
-		for i, e := range entries {
-			if plan.skipHuge && e.VLen() > c09GuardVLen {
-				o.put(fmt.Sprintf("ReadValue:%d:%d", id, i), &c09Res{API: "ReadValue", Err: "skipped-huge-vlen", VLen: e.VLen()})
-				continue
+		return entries
+	}
+	phaseReads := func() {
+		for id := uint64(1); id <= plan.n; id++ {
+			if q.when == "pertx" {
+				lenient(id)
 			}
-			o.call("ReadValue", fmt.Sprintf("ReadValue:%d:%d", id, i), func(res *c09Res) (string, error) {
-				res.VLen = e.VLen()
-				v, err := st.ReadValue(e)
+			entries := checkedTx(id, "")
+			// values of the entries as THIS store sees them
+			for i, e := range entries {
+				readValueOf("ReadValue", fmt.Sprintf("ReadValue:%d:%d", id, i), e)
+			}
+			maxV := 0
+			for _, e := range entries {
+				if e.VLen() > maxV {
+					maxV = e.VLen()
+				}
+			}
+			maxVLen[id] = maxV
+			if q.when == "sandwich" {
+				// checked reads (above) - lenient accesses - the same checked reads again
+				lenient(id)
+				for i, e := range checkedTx(id, "#2") {
+					readValueOf("ReadValue#2", fmt.Sprintf("ReadValue#2:%d:%d", id, i), e)
+				}
+			}
+			o.call("ReadTxHeader", fmt.Sprintf("ReadTxHeader:%d", id), func(*c09Res) (string, error) {
+				h, err := st.ReadTxHeader(id, false, false)
 				if err != nil {
 					return "", err
 				}
-				return hx.Hex(v), nil
-			})
-		}
-		maxV := 0
-		for _, e := range entries {
-			if e.VLen() > maxV {
-				maxV = e.VLen()
-			}
-		}
-		o.call("ReadTxHeader", fmt.Sprintf("ReadTxHeader:%d", id), func(*c09Res) (string, error) {
-			h, err := st.ReadTxHeader(id, false, false)
-			if err != nil {
-				return "", err
-			}
-			return c09HdrStr(h), nil
-		})
-		maxVLen[id] = maxV
-	}
-	for id := uint64(1); id <= plan.n; id++ {
-		for _, k := range plan.keys {
-			key := k
-			o.call("ReadTxEntry", fmt.Sprintf("ReadTxEntry:%d:%s", id, hx.Hex(key)), func(*c09Res) (string, error) {
-				e, h, err := st.ReadTxEntry(id, key, false)
-				if errors.Is(err, store.ErrKeyNotFound) {
-					return "not-found", nil
-				}
-				if err != nil {
-					return "", err
-				}
-				hv := e.HVal()
-				return fmt.Sprintf("%s,%s,%s|%s", hx.Hex(mdBytes(e.Metadata())), hx.Hex(e.Key()), hx.Hex(hv[:]), c09HdrStr(h)), nil
+				return c09HdrStr(h), nil
 			})
 		}
 	}
-	// sequential scans (PrevAlh chaining on top of the per-record check)
-	for _, desc := range []bool{false, true} {
-		name := "TxReaderAsc"
-		start := uint64(1)
-		if desc {
-			name, start = "TxReaderDesc", plan.n
-		}
-		var rd *store.TxReader
-		rr := o.call(name, name+":new", func(*c09Res) (string, error) {
-			var err error
-			rd, err = st.NewTxReader(start, desc, tx)
-			return "ok", err
-		})
-		if rr.Err != "" || rr.Panic != "" {
-			continue
-		}
-		for k := uint64(0); k < plan.n; k++ {
-			id := start + k
-			if desc {
-				id = start - k
-			}
-			rr := o.call(name, fmt.Sprintf("%s:%d", name, id), func(*c09Res) (string, error) {
-				t, err := rd.Read()
-				if err != nil {
-					return "", err
-				}
-				return c09Covered(t), nil
-			})
-			if rr.Err != "" || rr.Panic != "" {
-				break
-			}
-		}
-	}
-	// proofs
-	for _, pr := range plan.pairs {
-		s, t := pr[0], pr[1]
-		o.call("DualProof", fmt.Sprintf("DualProof:%d:%d", s, t), func(*c09Res) (string, error) {
-			sh, err := st.ReadTxHeader(s, false, false)
-			if err != nil {
-				return "", err
-			}
-			th, err := st.ReadTxHeader(t, false, false)
-			if err != nil {
-				return "", err
-			}
-			p, err := st.DualProof(sh, th)
-			if err != nil {
-				return "", err
-			}
-			return dualTok(p, s, t, sh.Alh(), th.Alh()), nil
-		})
-	}
-	// index (rebuilt from the tx log when the copy carries no index directory) and Get
-	if plan.withIndex && !o.abort {
-		r := o.call("InitIndexing", "InitIndexing", func(*c09Res) (string, error) {
-			return "ok", st.InitIndexing(&store.IndexSpec{})
-		})
-		if r.Err == "" && r.Panic == "" {
-			upto := plan.n
-			if firstBad > 0 {
-				upto = firstBad - 1
-			}
-			if upto > 0 {
-				ctx, cancel := context.WithTimeout(context.Background(), 3*time.Second)
-				st.WaitForIndexingUpto(ctx, upto)
-				cancel()
-			}
+	phaseEntries := func() {
+		for id := uint64(1); id <= plan.n; id++ {
 			for _, k := range plan.keys {
 				key := k
-				o.call("Get", "Get:"+hx.Hex(key), func(res *c09Res) (string, error) {
-					vr, err := st.Get(context.Background(), key)
+				o.call("ReadTxEntry", fmt.Sprintf("ReadTxEntry:%d:%s", id, hx.Hex(key)), func(*c09Res) (string, error) {
+					e, h, err := st.ReadTxEntry(id, key, false)
 					if errors.Is(err, store.ErrKeyNotFound) {
 						return "not-found", nil
 					}
 					if err != nil {
 						return "", err
 					}
-					res.VLen = int(vr.Len())
-					if plan.skipHuge && res.VLen > c09GuardVLen {
-						return "", errors.New("skipped-huge-vlen")
-					}
-					v, err := vr.Resolve()
-					if err != nil {
-						return "", err
-					}
-					hv := vr.HVal()
-					return fmt.Sprintf("%d|%s|%s|%s", vr.Tx(), hx.Hex(v), hx.Hex(mdBytes(vr.KVMetadata())), hx.Hex(hv[:])), nil
+					hv := e.HVal()
+					return fmt.Sprintf("%s,%s,%s|%s", hx.Hex(mdBytes(e.Metadata())), hx.Hex(e.Key()), hx.Hex(hv[:]), c09HdrStr(h)), nil
 				})
 			}
 		}
 	}
-	// exports last: an ExportTx that fails on a value read can leave a store-wide mutex locked
-	exportFailed := false
-	for id := uint64(1); id <= plan.n && !o.abort; id++ {
-		if plan.skipHuge && maxVLen[id] > c09GuardVLen {
-			continue
-		}
-		if exportFailed && plan.noExportAfterErr {
-			o.put(fmt.Sprintf("ExportTx:%d", id), &c09Res{API: "ExportTx", Err: "skipped-after-export-error"})
-			continue
-		}
-		rr := o.call("ExportTx", fmt.Sprintf("ExportTx:%d", id), func(res *c09Res) (string, error) {
-			res.VLen = maxVLen[id]
-			b, err := st.ExportTx(id, false, false, tx)
-			if err != nil {
-				return "", err
+	// sequential scans (PrevAlh chaining on top of the per-record check)
+	phaseScans := func() {
+		for _, desc := range []bool{false, true} {
+			name := "TxReaderAsc"
+			start := uint64(1)
+			if desc {
+				name, start = "TxReaderDesc", plan.n
 			}
-			return hx.Hex(b), nil
-		})
-		if rr.Err != "" {
-			exportFailed = true
+			var rd *store.TxReader
+			rr := o.call(name, name+":new", func(*c09Res) (string, error) {
+				var err error
+				rd, err = st.NewTxReader(start, desc, tx)
+				return "ok", err
+			})
+			if rr.Err != "" || rr.Panic != "" {
+				continue
+			}
+			for k := uint64(0); k < plan.n; k++ {
+				id := start + k
+				if desc {
+					id = start - k
+				}
+				rr := o.call(name, fmt.Sprintf("%s:%d", name, id), func(*c09Res) (string, error) {
+					t, err := rd.Read()
+					if err != nil {
+						return "", err
+					}
+					return c09Covered(t), nil
+				})
+				if rr.Err != "" || rr.Panic != "" {
+					break
+				}
+			}
 		}
+	}
+	phaseProofs := func() {
+		for _, pr := range plan.pairs {
+			s, t := pr[0], pr[1]
+			o.call("DualProof", fmt.Sprintf("DualProof:%d:%d", s, t), func(*c09Res) (string, error) {
+				sh, err := st.ReadTxHeader(s, false, false)
+				if err != nil {
+					return "", err
+				}
+				th, err := st.ReadTxHeader(t, false, false)
+				if err != nil {
+					return "", err
+				}
+				p, err := st.DualProof(sh, th)
+				if err != nil {
+					return "", err
+				}
+				return dualTok(p, s, t, sh.Alh(), th.Alh()), nil
+			})
+		}
+	}
+	// index (rebuilt from the tx log when the copy carries no index directory) and Get
+	phaseIndexGet := func() {
+		if !plan.withIndex || o.abort {
+			return
+		}
+		r := o.call("InitIndexing", "InitIndexing", func(*c09Res) (string, error) {
+			return "ok", st.InitIndexing(&store.IndexSpec{})
+		})
+		if r.Err != "" || r.Panic != "" {
+			return
+		}
+		upto := plan.n
+		if firstBad > 0 {
+			upto = firstBad - 1
+		}
+		if upto > 0 {
+			ctx, cancel := context.WithTimeout(context.Background(), 3*time.Second)
+			t0 := time.Now()
+			werr := st.WaitForIndexingUpto(ctx, upto)
+			cancel()
+			if os.Getenv("C09_DEBUG") != "" && time.Since(t0) > time.Second {
+				fmt.Fprintf(os.Stderr, "slow wait-for-indexing upto=%d firstBad=%d n=%d err=%v %s dir=%s\n", upto, firstBad, plan.n, werr, pv, dir)
+			}
+		}
+		for _, k := range plan.keys {
+			key := k
+			o.call("Get", "Get:"+hx.Hex(key), func(res *c09Res) (string, error) {
+				vr, err := st.Get(context.Background(), key)
+				if errors.Is(err, store.ErrKeyNotFound) {
+					return "not-found", nil
+				}
+				if err != nil {
+					return "", err
+				}
+				res.VLen = int(vr.Len())
+				if plan.skipHuge && res.VLen > c09GuardVLen {
+					return "", errors.New("skipped-huge-vlen")
+				}
+				v, err := vr.Resolve()
+				if err != nil {
+					return "", err
+				}
+				hv := vr.HVal()
+				return fmt.Sprintf("%d|%s|%s|%s", vr.Tx(), hx.Hex(v), hx.Hex(mdBytes(vr.KVMetadata())), hx.Hex(hv[:])), nil
+			})
+		}
+	}
+	// an ExportTx that fails on a value read can leave a store-wide mutex locked (finding C09:ExportTx:hang): it only
+	// blocks later ExportTx calls, so exports may run at any point of the sequence
+	phaseExport := func(known bool) {
+		for id := uint64(1); id <= plan.n && !o.abort; id++ {
+			if known && plan.skipHuge && maxVLen[id] > c09GuardVLen {
+				continue
+			}
+			if exportFailed && plan.noExportAfterErr {
+				o.put(fmt.Sprintf("ExportTx:%d", id), &c09Res{API: "ExportTx", Err: "skipped-after-export-error"})
+				continue
+			}
+			rr := o.call("ExportTx", fmt.Sprintf("ExportTx:%d", id), func(res *c09Res) (string, error) {
+				res.VLen = maxVLen[id]
+				b, err := st.ExportTx(id, false, false, tx)
+				if err != nil {
+					return "", err
+				}
+				return hx.Hex(b), nil
+			})
+			if rr.Err != "" {
+				exportFailed = true
+			}
+		}
+	}
+
+	// ---- the sequence
+	if q.when == "bulk" {
+		for id := uint64(1); id <= plan.n; id++ {
+			lenient(id)
+		}
+	}
+	if q.getFirst {
+		// which transactions are readable bounds the wait for the indexer (header reads touch no value)
+		for id := uint64(1); id <= plan.n && firstBad == 0; id++ {
+			checkedTx(id, "#0")
+		}
+		phaseIndexGet()
+	}
+	if q.exportFirst {
+		phaseExport(false)
+	}
+	phaseReads()
+	phaseEntries()
+	phaseScans()
+	phaseProofs()
+	if !q.getFirst {
+		phaseIndexGet()
+	}
+	if !q.exportFirst {
+		phaseExport(true)
 	}
 	return o
 }
@@ -1065,28 +1321,29 @@ func (s *c09Store) keyAt(key []byte, tx uint64) (string, bool) {
 
 func c09API(key string) string {
 	if i := strings.Index(key, ":"); i > 0 {
-		return key[:i]
+		key = key[:i]
 	}
-	return key
+	return c09SigAPI(key)
 }
 
-func (s *c09Store) judge(r *hx.Result, got *c09Obs, hang string, m c09Mut) (detected, harmless int) {
-	replay := map[string]interface{}{"cfg": s.cfg, "mutation": m, "seed": r.Seed}
+func (s *c09Store) judge(r *hx.Result, got *c09Obs, hang string, m c09Mut, pv c09Variant) (detected, harmless int) {
+	replay := map[string]interface{}{"cfg": s.cfg, "mutation": m, "variant": pv, "seed": r.Seed}
 	if hang != "" {
-		r.Fail("C09:"+c09API(hang)+":hang", fmt.Sprintf("call %s did not return within the timeout after %s", hang, m.Kind), replay)
+		r.Fail("C09:"+c09API(hang)+":hang", fmt.Sprintf("call %s did not return within the timeout after %s (%s)", hang, m.Kind, pv), replay)
 	}
 	if got == nil {
 		return
 	}
 	for _, k := range got.order {
 		res := got.m[k]
-		api := res.API
+		api := res.API       // counters keep the exact call kind ("ReadValue#2", "ExportTx!skip")
+		sapi := c09SigAPI(api) // signatures name the API
 		r.OracleChecks++
 		switch {
 		case res.Panic != "":
 			r.Count("outcome." + api + ".panic")
-			r.Fail("C09:"+res.Panic+":panic", fmt.Sprintf("%s panicked in %s (%s) after mutation %s field=%s tx=%d", k, res.Panic, res.Msg, m.Kind, m.Field, m.Tx),
-				map[string]interface{}{"cfg": s.cfg, "mutation": m, "call": k})
+			r.Fail("C09:"+res.Panic+":panic", fmt.Sprintf("%s panicked in %s (%s) after mutation %s field=%s tx=%d (%s)", k, res.Panic, res.Msg, m.Kind, m.Field, m.Tx, pv),
+				map[string]interface{}{"cfg": s.cfg, "mutation": m, "variant": pv, "call": k})
 			continue
 		case res.Alloc > c09HugeAlloc:
 			cls := "huge-allocation"
@@ -1094,8 +1351,18 @@ func (s *c09Store) judge(r *hx.Result, got *c09Obs, hang string, m c09Mut) (dete
 				cls = "huge-allocation-from-vlen"
 			}
 			r.Count("outcome." + api + "." + cls)
-			r.Fail("C09:"+api+":"+cls, fmt.Sprintf("%s allocated %d MiB (believed vLen=%d) after mutation %s field=%s tx=%d; result err=%q", k, res.Alloc>>20, res.VLen, m.Kind, m.Field, m.Tx, res.Err),
-				map[string]interface{}{"cfg": s.cfg, "mutation": m, "call": k})
+			r.Fail("C09:"+sapi+":"+cls, fmt.Sprintf("%s allocated %d MiB (believed vLen=%d) after mutation %s field=%s tx=%d (%s); result err=%q", k, res.Alloc>>20, res.VLen, m.Kind, m.Field, m.Tx, pv, res.Err),
+				map[string]interface{}{"cfg": s.cfg, "mutation": m, "variant": pv, "call": k})
+		}
+		if c09Lenient(api) {
+			// the caller asked for NO integrity check: whatever is returned is not judged (no panic, no hang, no huge
+			// allocation is all that is required of a lenient call); what matters is what the CHECKED calls return afterwards
+			if res.Err != "" {
+				r.Count("outcome." + api + ".error")
+			} else {
+				r.Count("outcome." + api + ".ok")
+			}
+			continue
 		}
 		if strings.HasPrefix(res.Err, "skipped-") {
 			r.Count("outcome." + api + "." + res.Err)
@@ -1116,7 +1383,23 @@ func (s *c09Store) judge(r *hx.Result, got *c09Obs, hang string, m c09Mut) (dete
 			}
 			continue
 		}
-		base := s.base.m[k]
+		if res.Self != "" {
+			// ReadValue of an entry that a lenient read handed out: the value must carry the digest and length of THAT entry
+			if res.Self == "ok" {
+				harmless++
+				r.Count("outcome." + api + ".self-authentic")
+				continue
+			}
+			cls := "wrong-value-served"
+			if res.VLen == 0 {
+				cls = "wrong-value-served-vlen0"
+			}
+			r.Count("outcome." + api + "." + cls)
+			r.Fail("C09:"+sapi+":"+cls, fmt.Sprintf("%s returned without error a value that does not have the entry's digest/length after mutation %s field=%s tx=%d (%s): got %.120s", k, m.Kind, m.Field, m.Tx, pv, res.Val),
+				map[string]interface{}{"cfg": s.cfg, "mutation": m, "variant": pv, "call": k, "got": res.Val})
+			continue
+		}
+		base := s.base.m[c09BaseKey(k)]
 		want := ""
 		if base != nil {
 			want = base.Val
@@ -1152,7 +1435,7 @@ func (s *c09Store) judge(r *hx.Result, got *c09Obs, hang string, m c09Mut) (dete
 		if base == nil || res.Val != want {
 			what := "content"
 			cls := "wrong-content-served"
-			if api == "ReadValue" || api == "Get" {
+			if sapi == "ReadValue" || api == "Get" {
 				what, cls = "value", "wrong-value-served"
 				if res.VLen == 0 {
 					cls = "wrong-value-served-vlen0"
@@ -1165,8 +1448,8 @@ func (s *c09Store) judge(r *hx.Result, got *c09Obs, hang string, m c09Mut) (dete
 				cls = "unreadable-value-exported-as-truncated"
 			}
 			r.Count("outcome." + api + "." + cls)
-			r.Fail("C09:"+api+":"+cls, fmt.Sprintf("%s returned different %s without error after mutation %s field=%s tx=%d: got %.120s want %.120s", k, what, m.Kind, m.Field, m.Tx, res.Val, want),
-				map[string]interface{}{"cfg": s.cfg, "mutation": m, "call": k, "got": res.Val, "want": want})
+			r.Fail("C09:"+sapi+":"+cls, fmt.Sprintf("%s returned different %s without error after mutation %s field=%s tx=%d (%s): got %.120s want %.120s", k, what, m.Kind, m.Field, m.Tx, pv, res.Val, want),
+				map[string]interface{}{"cfg": s.cfg, "mutation": m, "variant": pv, "call": k, "got": res.Val, "want": want})
 			continue
 		}
 		harmless++
@@ -1214,6 +1497,30 @@ type c09Runner struct {
 	s     *c09Store
 	work  string
 	cases int
+	// variant rotation: every mutation class walks through the cross product sequence x value cache x tx cache on its own
+	// counter (the classes are interleaved round-robin, a global counter would alias with that period)
+	vStart int
+	vCount map[string]int
+}
+
+// variantFor: the next variant for the class of this mutation.
+func (cr *c09Runner) variantFor(m c09Mut) c09Variant {
+	if cr.vCount == nil {
+		cr.vCount = map[string]int{}
+	}
+	cls := m.Kind
+	if i := strings.Index(cls, "."); i > 0 {
+		cls = cls[:i]
+	}
+	if strings.HasPrefix(m.Kind, "random.") {
+		cls = m.Kind[:strings.LastIndex(m.Kind, ".")] // random.tx / random.val
+	}
+	if m.Tx == 0 && len(m.Patches) > 0 && m.Patches[0].Log != "tx" {
+		cls = "valuelog" // everything that alters a value log
+	}
+	i := cr.vCount[cls]
+	cr.vCount[cls]++
+	return c09VariantAt(cr.vStart + i)
 }
 
 // Expensive failure classes are confirmed a bounded number of times per run and then no longer re-triggered
@@ -1227,6 +1534,11 @@ var c09Budget struct {
 const c09Stall = 10 * time.Second
 
 func (cr *c09Runner) run(m c09Mut, withIndex bool) {
+	pv := cr.variantFor(m)
+	cr.runV(m, withIndex || pv.seq().getFirst, pv)
+}
+
+func (cr *c09Runner) runV(m c09Mut, withIndex bool, pv c09Variant) {
 	r, s := cr.r, cr.s
 	r.NextCase()
 	cr.cases++
@@ -1268,8 +1580,30 @@ func (cr *c09Runner) run(m c09Mut, withIndex bool) {
 		}
 		r.Count("field." + f)
 	}
-	plan := c09Plan{n: s.n, keys: s.keys, pairs: s.pairs, withIndex: withIndex, skipHuge: c09Budget.skipHuge, noExportAfterErr: c09Budget.noExportAfterErr}
+	plan := c09Plan{n: s.n, keys: s.keys, pairs: s.pairs, withIndex: withIndex, skipHuge: c09Budget.skipHuge, noExportAfterErr: c09Budget.noExportAfterErr, pv: pv}
+	q := pv.seq()
+	r.Count(fmt.Sprintf("variant.vcache.%d", pv.VCache))
+	r.Count(fmt.Sprintf("variant.txcache.%d", pv.TxCache))
+	for _, tok := range strings.Split(pv.Seq, "+") {
+		if tok == "" {
+			tok = "checked-only"
+		}
+		r.Count("variant.seq." + tok)
+	}
+	if pv.VCache > 0 && q.export && q.when != "" {
+		r.Count("variant.lenient-export-then-checked-with-vcache")
+	}
+	tProbe := time.Now()
 	got, hang := c09ProbeTimed(dst, s.cfg, plan, c09Stall)
+	if pm, _ := r.Extra["probe_ms_by_seq"].(map[string][2]float64); true {
+		if pm == nil {
+			pm = map[string][2]float64{}
+			r.Extra["probe_ms_by_seq"] = pm
+		}
+		k := fmt.Sprintf("%s/index=%v", strings.TrimPrefix(pv.String(), fmt.Sprintf("vcache=%d,txcache=%d,", pv.VCache, pv.TxCache)), withIndex)
+		v := pm[k]
+		pm[k] = [2]float64{v[0] + 1, v[1] + float64(time.Since(tProbe).Milliseconds())}
+	}
 	if hang != "" {
 		c09Budget.hangs++
 		if c09API(hang) == "ExportTx" {
@@ -1279,9 +1613,9 @@ func (cr *c09Runner) run(m c09Mut, withIndex bool) {
 	if strings.HasPrefix(m.Kind, "f6.vlen-huge") {
 		c09Budget.skipHuge = true
 	}
-	det, harm := s.judge(r, got, hang, m)
+	det, harm := s.judge(r, got, hang, m, pv)
 	nontrivial := det > 0
-	r.Eval(fmt.Sprintf("%s/%s/%v", s.cfg.Name, m.Kind, m.Patches), nontrivial)
+	r.Eval(fmt.Sprintf("%s/%s/%v/%s", s.cfg.Name, m.Kind, m.Patches, pv), nontrivial)
 	if got != nil && (cr.cases%97 == 5 || strings.HasPrefix(m.Kind, "f6.")) {
 		calls := map[string]int{}
 		for _, k := range got.order {
@@ -1295,7 +1629,7 @@ func (cr *c09Runner) run(m c09Mut, withIndex bool) {
 				calls["ok"]++
 			}
 		}
-		r.Sample(map[string]interface{}{"kind": "case", "cfg": s.cfg.Name, "mutation": m.Kind, "field": m.Field, "tx": m.Tx, "calls": calls, "hang": hang})
+		r.Sample(map[string]interface{}{"kind": "case", "cfg": s.cfg.Name, "mutation": m.Kind, "field": m.Field, "tx": m.Tx, "variant": pv.String(), "calls": calls, "hang": hang})
 	}
 	if det == 0 {
 		r.Count("case.no-call-noticed")
@@ -1304,7 +1638,12 @@ func (cr *c09Runner) run(m c09Mut, withIndex bool) {
 	}
 	_ = harm
 	if m.Kind == "control.none" && (det > 0 || hang != "") {
-		r.Fail("C09:harness:control-copy-differs", "an UNALTERED copy did not reproduce the ground truth (harness defect)", nil)
+		sig := "C09:store:unaltered-copy-differs"
+		if pv == (c09Variant{}) {
+			sig = "C09:harness:control-copy-differs"
+		}
+		r.Fail(sig, "an UNALTERED copy read with "+pv.String()+" did not reproduce the ground truth of the plain checked probe (a read answered differently because of the cache configuration / read sequence, or a harness defect)",
+			map[string]interface{}{"cfg": s.cfg, "mutation": m, "variant": pv})
 	}
 	if got == nil {
 		return
@@ -1314,7 +1653,7 @@ func (cr *c09Runner) run(m c09Mut, withIndex bool) {
 		cr.corrParse(dst, got, uint64(m.Tx))
 	}
 	if s.cfg.Comp == appendable.NoCompression {
-		cr.corrValues(dst, got, m)
+		cr.corrValues(dst, got, m, pv)
 	}
 }
 
@@ -1400,7 +1739,29 @@ func (cr *c09Runner) corrParse(dir string, got *c09Obs, id uint64) {
 	}
 }
 
-func (cr *c09Runner) corrValues(dir string, got *c09Obs, m c09Mut) {
+// c09Slice: the bytes a value read of (vOff, vLen) finds on the logical logs (false = the read fails before anything is cached).
+func c09Slice(cfg c09Cfg, logs [][]byte, txLog []byte, vOff uint64, vLen int) ([]byte, bool) {
+	id := int(vOff >> 56)
+	var log []byte
+	switch {
+	case cfg.Embedded && id == 0:
+		log = txLog
+	case !cfg.Embedded && id >= 1 && id <= len(logs):
+		log = logs[id-1]
+	default:
+		return nil, false
+	}
+	if vOff>>63&1 == 1 || vLen <= 0 {
+		return nil, false
+	}
+	off := vOff & (1<<55 - 1)
+	if off+uint64(vLen) > uint64(len(log)) {
+		return nil, false
+	}
+	return log[off : off+uint64(vLen)], true
+}
+
+func (cr *c09Runner) corrValues(dir string, got *c09Obs, m c09Mut, pv c09Variant) {
 	s := cr.s
 	// only the transactions whose record or values were hit
 	hit := map[int]bool{}
@@ -1442,6 +1803,30 @@ func (cr *c09Runner) corrValues(dir string, got *c09Obs, m c09Mut) {
 	if s.cfg.Embedded {
 		emb = "1"
 	}
+	// Value cache on: the cache is keyed by vOff alone and keeps the bytes of the FIRST read of that offset. It is
+	// transparent (Lean: cached_read_transparent) unless two entries read in this case (by a checked or a lenient call)
+	// name the same offset with different lengths; those entries are left to the oracle.
+	offLens := map[string]map[string]bool{}
+	if pv.VCache > 0 {
+		for _, k := range got.order {
+			res := got.m[k]
+			if !strings.HasPrefix(res.API, "ReadTx") || res.Full == "" {
+				continue
+			}
+			parts := strings.Split(res.Full, "|")
+			if len(parts) != 3 || parts[1] == "_" {
+				continue
+			}
+			for _, es := range strings.Split(parts[1], ";") {
+				if f := strings.Split(es, ","); len(f) == 5 && f[2] != "0" {
+					if offLens[f[3]] == nil {
+						offLens[f[3]] = map[string]bool{}
+					}
+					offLens[f[3]][f[2]] = true
+				}
+			}
+		}
+	}
 	for id := range hit {
 		rt := got.m[fmt.Sprintf("ReadTx:%d", id)]
 		if rt == nil || rt.Full == "" {
@@ -1458,21 +1843,50 @@ func (cr *c09Runner) corrValues(dir string, got *c09Obs, m c09Mut) {
 			if rv == nil || len(f) != 5 || rv.Err == "skipped-huge-vlen" {
 				continue
 			}
-			impl := ""
-			switch {
-			case rv.Panic != "":
-				impl = "panic"
-			case rv.Err == "data":
-				impl = "err:data"
-			case rv.Err == "unexpected":
-				impl = "err:unexpected"
-			case rv.Err != "":
-				impl = "err:io"
-			default:
-				impl = "ok " + rv.Val
+			if len(offLens[f[3]]) > 1 {
+				cr.r.Count("tie.rv.skipped-offset-cached-with-another-length")
+				continue
 			}
+			implOf := func(rv *c09Res) string {
+				switch {
+				case rv.Panic != "":
+					return "panic"
+				case rv.Err == "data":
+					return "err:data"
+				case rv.Err == "unexpected":
+					return "err:unexpected"
+				case rv.Err != "":
+					return "err:io"
+				}
+				return "ok " + rv.Val
+			}
+			impl := implOf(rv)
 			cr.r.Corr(fmt.Sprintf("c09 rv %s %d %d %s %s %s %s %s", emb, s.cfg.MaxIO, c09MaxValLen, f[2], f[3], f[4], hx.Csv(logs), hx.Hex(txLog)), impl)
 			cr.r.Count("tie.rv." + strings.SplitN(impl, " ", 2)[0])
+			// the repeated read of a sandwich sequence goes through the model WITH the cache state the first read left
+			// (readValueC): "off" = no cache, "none" = nothing cached for this offset, else the cached bytes
+			if rv2 := got.m[fmt.Sprintf("ReadValue#2:%d:%d", id, i)]; rv2 != nil && rv2.Err != "skipped-huge-vlen" {
+				if rt2 := got.m[fmt.Sprintf("ReadTx#2:%d", id)]; rt2 == nil || rt2.Full != rt.Full {
+					continue
+				}
+				cached := "off"
+				if pv.VCache > 0 {
+					cached = "none"
+					var vOff uint64
+					var vLen int
+					fmt.Sscanf(f[3], "%d", &vOff)
+					fmt.Sscanf(f[2], "%d", &vLen)
+					if b, ok := c09Slice(s.cfg, logs, txLog, vOff, vLen); ok && vLen <= c09MaxValLen {
+						cached = hx.Hex(b)
+					}
+				}
+				impl2 := implOf(rv2)
+				cr.r.Corr(fmt.Sprintf("c09 rvc %s %d %d %s %s %s %s %s %s", emb, s.cfg.MaxIO, c09MaxValLen, f[2], f[3], f[4], hx.Csv(logs), hx.Hex(txLog), cached), impl2)
+				cr.r.Count("tie.rvc." + strings.SplitN(impl2, " ", 2)[0])
+				if cached != "off" && cached != "none" {
+					cr.r.Count("tie.rvc.through-cached-bytes")
+				}
+			}
 		}
 	}
 }
@@ -1543,6 +1957,29 @@ func (s *c09Store) recordMutations(t *c09Tx, rng *hx.Rng, full bool) []c09Mut {
 				add("voff.bit55", f.Name, f.Off, be(8, cur|1<<55), false)
 				add("voff.off+1", f.Name, f.Off, be(8, cur+1), false)
 				add("voff.far", f.Name, f.Off, be(8, cur&^(1<<56-1)|1<<40), false)
+				// vOff is not covered by the Alh: point it at ANOTHER committed value of the same length (one read before
+				// this entry, one read after it), only the digest comparison can tell
+				if me := t.Entries[f.Entry]; me.VLen > 0 {
+					var before, after *c09Entry
+					for id := uint64(1); id <= s.n; id++ {
+						for j := range s.txs[id].Entries {
+							o := &s.txs[id].Entries[j]
+							if o.VLen != me.VLen || o.HVal == me.HVal || o.VOff == me.VOff {
+								continue
+							}
+							if id < t.ID || (id == t.ID && j < f.Entry) {
+								before = o
+							} else if after == nil {
+								after = o
+							}
+						}
+					}
+					for _, o := range []*c09Entry{before, after} {
+						if o != nil {
+							add("voff.alias", f.Name, f.Off, be(8, uint64(o.VOff)), false)
+						}
+					}
+				}
 			}
 			if strings.HasSuffix(f.Name, "vLen") {
 				add("vlen.set", f.Name, f.Off, be(4, 1<<24), false)
@@ -1787,10 +2224,14 @@ func c09RunCfg(r *hx.Result, rng *hx.Rng, cfg c09Cfg, thorough bool, budget time
 	}()
 	r.Sample(map[string]interface{}{"kind": "store", "cfg": cfg, "txs": n, "txlog_bytes": s.txLogSz, "value_ranges": len(s.vRanges),
 		"calls_per_probe": len(s.base.order)})
-	cr := &c09Runner{r: r, s: s, work: work}
+	cr := &c09Runner{r: r, s: s, work: work, vStart: rng.Intn(88)}
 
-	// (0) control: an unaltered copy must reproduce the ground truth exactly
-	cr.run(c09Mut{Kind: "control.none"}, true)
+	// (0) control: an unaltered copy must reproduce the ground truth exactly, under every read sequence and with the
+	// caches off / tiny / large (the answers of the checked APIs must not depend on any of this)
+	cr.runV(c09Mut{Kind: "control.none"}, true, c09Variant{})
+	for i := range c09Seqs {
+		cr.runV(c09Mut{Kind: "control.none"}, true, c09VariantAt(cr.vStart+1+i))
+	}
 
 	// (1) targeted probes for the suspected defects (F6) and the documented limit (K2); not charged to the budget
 	t0 := time.Now()
@@ -1929,18 +2370,42 @@ func (cr *c09Runner) targeted(rng *hx.Rng) {
 			off := uint64(e.VOff) & (1<<56 - 1)
 			// F6a: vlog id outside 1..MaxIOConcurrency
 			for _, vid := range []uint64{uint64(s.cfg.MaxIO) + 1, 200} {
-				cr.run(c09Mut{Kind: "f6.voff-vlogid-out-of-range", Tx: int(id), Field: fOff.Name,
-					Patches: []c09Patch{{Log: "tx", Off: t.Off + int64(fOff.Off), Bytes: be(8, vid<<56|off)}}}, false)
+				cr.runV(c09Mut{Kind: "f6.voff-vlogid-out-of-range", Tx: int(id), Field: fOff.Name,
+					Patches: []c09Patch{{Log: "tx", Off: t.Off + int64(fOff.Off), Bytes: be(8, vid<<56|off)}}}, false, c09Variant{})
 			}
 			// F6b: vLen up to 4 GiB
 			// F6b: the allocation follows the stored vLen (up to 4 GiB); 256 MiB is enough to show it, once per run
 			if !c09Budget.skipHuge {
-				cr.run(c09Mut{Kind: "f6.vlen-huge", Tx: int(id), Field: fLen.Name,
-					Patches: []c09Patch{{Log: "tx", Off: t.Off + int64(fLen.Off), Bytes: be(4, 1<<28+5)}}}, true)
+				cr.runV(c09Mut{Kind: "f6.vlen-huge", Tx: int(id), Field: fLen.Name,
+					Patches: []c09Patch{{Log: "tx", Off: t.Off + int64(fLen.Off), Bytes: be(4, 1<<28+5)}}}, true, c09Variant{})
 			}
 			// vLen := 0 (value served as empty without any check)
-			cr.run(c09Mut{Kind: "vlen.zero", Tx: int(id), Field: fLen.Name,
-				Patches: []c09Patch{{Log: "tx", Off: t.Off + int64(fLen.Off), Bytes: be(4, 0)}}}, true)
+			cr.runV(c09Mut{Kind: "vlen.zero", Tx: int(id), Field: fLen.Name,
+				Patches: []c09Patch{{Log: "tx", Off: t.Off + int64(fLen.Off), Bytes: be(4, 0)}}}, true, c09Variant{})
+			// lenient-then-checked: one bit of THIS value (the latest version of its key, so Get serves it) flipped on disk,
+			// read through the sequences that put a lenient access / another checked API before the checked value reads,
+			// value cache large and small
+			for _, vr := range s.vRanges {
+				if vr.Tx != int(id) || vr.Entry != i || s.cfg.Comp != appendable.NoCompression {
+					continue
+				}
+				pos := int64(rng.Intn(vr.Len))
+				for k, seq := range []string{"bulk-export", "pertx-all", "sandwich-export", "get-first+bulk-export", "export-first", "checked-only"} {
+					pv := c09Variant{VCache: []int{64, 8}[k%2], TxCache: k % 2, Seq: seq}
+					cr.runV(c09Mut{Kind: "value.flip", Field: fmt.Sprintf("tx%d.e%d.value+%d", vr.Tx, vr.Entry, pos),
+						Patches: []c09Patch{{Log: vr.Log, Off: vr.Off + pos, Bytes: []byte{1 << uint(rng.Intn(8))}, Xor: true}}}, true, pv)
+				}
+			}
+			// vOff aliasing (uncovered field pointed at another committed value of the same length), cache on: first two available
+			nAlias := 0
+			for aid := uint64(1); aid <= s.n && nAlias < 2; aid++ {
+				for _, am := range s.recordMutations(s.txs[aid], rng.Fork(), false) {
+					if am.Kind == "voff.alias" && nAlias < 2 {
+						cr.runV(am, true, c09Variant{VCache: 64, TxCache: nAlias, Seq: []string{"checked-only", "bulk-export"}[nAlias]})
+						nAlias++
+					}
+				}
+			}
 			goto k2
 		}
 	}
@@ -1951,7 +2416,7 @@ k2:
 		for _, m := range s.metadataMutations(s.txs[id]) {
 			if (m.Kind == "txmd.extra-too-long" || m.Kind == "txmd.extra-overrun") && !seenKind[m.Kind] {
 				seenKind[m.Kind] = true
-				cr.run(m, false)
+				cr.runV(m, false, c09Variant{})
 			}
 		}
 	}
@@ -2075,8 +2540,9 @@ func c09Replay(r *hx.Result, path string) error {
 	var f struct {
 		Seed   uint64 `json:"seed"`
 		Replay struct {
-			Cfg      c09Cfg `json:"cfg"`
-			Mutation c09Mut `json:"mutation"`
+			Cfg      c09Cfg     `json:"cfg"`
+			Mutation c09Mut     `json:"mutation"`
+			Variant  c09Variant `json:"variant"`
 		} `json:"replay"`
 	}
 	if err := json.Unmarshal(b, &f); err != nil {
@@ -2104,7 +2570,7 @@ func c09Replay(r *hx.Result, path string) error {
 		if strings.HasPrefix(f.Replay.Mutation.Kind, "k2.") {
 			cr.runK2(f.Replay.Mutation)
 		} else {
-			cr.run(f.Replay.Mutation, true)
+			cr.runV(f.Replay.Mutation, true, f.Replay.Variant)
 		}
 		return r.Flush()
 	}
@@ -2112,13 +2578,13 @@ func c09Replay(r *hx.Result, path string) error {
 }
 
 func runC09(r *hx.Result, rng *hx.Rng, thorough bool, replay string) error {
-	r.Rule = "cases: one case = one altered copy of a real store directory (systematic: every field boundary ±1 bit, every length/offset/count/id field := 0/1/max/±1, vlog-id and offset variants of vOff, metadata overruns/unknown/non-canonical attributes, first/last/random byte of every value range, compressed-length prefixes; seeded random single- and multi-bit flips of tx and value logs; targeted F6/K2 probes), opened and read through Open, ReadTx, ReadValue, ReadTxHeader, ReadTxEntry, TxReader asc/desc, DualProof, index rebuild + Get, ExportTx. Non-trivial = at least one call noticed the alteration (returned an error); distinct by configuration + patch list."
+	r.Rule = "cases: one case = one altered copy of a real store directory (systematic: every field boundary ±1 bit, every length/offset/count/id field := 0/1/max/±1, vlog-id and offset variants of vOff, metadata overruns/unknown/non-canonical attributes, first/last/random byte of every value range, compressed-length prefixes; seeded random single- and multi-bit flips of tx and value logs; targeted F6/K2 probes), opened (value-log cache size 0/1/4/64 x tx-log cache size default/1) and read through Open, ReadTx, ReadValue, ReadTxHeader, ReadTxEntry, TxReader asc/desc, DualProof, index rebuild + Get, ExportTx in one of 11 read sequences (lenient skipIntegrityCheck=true accesses first / per tx / sandwiched between two checked passes; export-first; get-first). Non-trivial = at least one call noticed the alteration (returned an error); distinct by configuration + patch list."
 	debug.SetMemoryLimit(24 << 30)
 	c09Budget.skipHuge, c09Budget.noExportAfterErr, c09Budget.hangs = false, false, 0
 	if replay != "" {
 		return c09Replay(r, replay)
 	}
-	budget := 10 * time.Second
+	budget := 12 * time.Second
 	if thorough {
 		budget = 60 * time.Second
 	}
@@ -2131,7 +2597,10 @@ func runC09(r *hx.Result, rng *hx.Rng, thorough bool, replay string) error {
 	need := []string{"tie.parse.ok", "tie.parse.err:txdata", "tie.parse.err:data", "tie.parse.err:maxkeylen", "tie.parse.err:maxentries",
 		"tie.parse.err:version", "tie.rv.ok", "tie.rv.err:data", "tie.rv.err:io", "outcome.Open.error.txdata", "outcome.ReadTx.pristine-content",
 		"outcome.ReadValue.error.data", "outcome.TxReaderAsc.error.txdata", "outcome.DualProof.error.txdata", "outcome.Get.pristine-content",
-		"outcome.ExportTx.error.data", "mutation.control.none", "mutation.random.tx.1bit", "mutation.random.val.1bit", "mutation.num.set"}
+		"outcome.ExportTx.error.data", "mutation.control.none", "mutation.random.tx.1bit", "mutation.random.val.1bit", "mutation.num.set",
+		"variant.lenient-export-then-checked-with-vcache", "variant.vcache.0", "variant.vcache.1", "variant.vcache.64", "variant.txcache.1",
+		"variant.seq.sandwich-export", "variant.seq.get-first", "variant.seq.export-first", "outcome.ReadValue#2.pristine-content",
+		"outcome.ReadValue#L.self-authentic", "outcome.ExportTx!skip.ok"}
 	for _, k := range need {
 		if r.Distribution[k] == 0 {
 			r.Inconclusive = append(r.Inconclusive, "generator collapse: no case with "+k)
